@@ -6,6 +6,7 @@ CONSTANTS
   GuardTypedNil = TRUE
   CloseOnNilPayload = TRUE
   PooledBuffer = FALSE
+  UEOFIsEnd = FALSE
   MaxSeq = 3
   MaxContent = 2
   MaxChunks = 3
